@@ -20,6 +20,10 @@ import z3
 from ..common import HarnessError
 
 
+import os as _os
+_SLOW = float(_os.environ.get("VT_SLOW", "0") or 0)
+
+
 class Unsupported(HarnessError):
     pass
 
@@ -277,6 +281,7 @@ class Interp:
         self.n_safety_checked = 0
         self.calltrace = []
         self.trace_calls = False
+        self.trace_only = None      # restrict the call trace to these names (traced calls are never merged)
         self.depth = 0
         self.unwind = unwind
         self.merge = merge
@@ -285,6 +290,9 @@ class Interp:
         self.solver_s = 0.0
         self.n_checks = 0
         self.unknown_forks = 0
+        self.n_retry_ok = 0
+        self.linearize_uniform = True
+        self.uniform_syms = set()
         self.nomerge = set()
         self.havocs = []
         self.stubs = {}             # function/method name -> callable(I, this, args) replacing the body
@@ -314,8 +322,26 @@ class Interp:
             m = self.solver.model() if r == z3.sat else None
         finally:
             self.solver.pop()
+        if r == z3.unknown:
+            # retry non-incrementally with the complete NRA procedure before giving up
+            try:
+                s2 = z3.Tactic("qfnra-nlsat").solver()
+                s2.set("timeout", self.timeout_ms)
+                s2.add(*self.defs)
+                s2.add(*self.pc)
+                s2.add(*extra)
+                r2 = s2.check()
+                if r2 != z3.unknown:
+                    r = r2
+                    m = s2.model() if r2 == z3.sat else None
+                    self.n_retry_ok += 1
+            except z3.Z3Exception:
+                pass
         self.solver_s += time.time() - t0
         self.n_checks += 1
+        if _SLOW and time.time() - t0 > _SLOW:
+            import sys as _s
+            print("SLOW %.1fs %s npc=%d extra=%s" % (time.time() - t0, r, len(self.pc), str(extra)[:300].replace("\n", " ")), file=_s.stderr)
         return str(r), m
 
     def prove(self, claim):
@@ -676,7 +702,9 @@ class Interp:
             else:
                 v = a.get() if hasattr(a, "get") else a
                 frame[p["id"]] = Box(v.copy() if isinstance(v, Vec) and not v.raw else v, p.get("name", ""))
-        if self.trace_calls:
+        if self.trace_calls and (self.trace_only is None or fdecl.get("name") in self.trace_only):
+            if self.ctx.local:
+                raise CannotMerge()
             self.calltrace.append((self.depth, fdecl.get("name", "?"),
                                    [(a.get() if hasattr(a, "get") else a) for a in args if not isinstance(a, (Vec, Ptr))]))
         stub = self.stubs.get(fdecl.get("name"))
@@ -1057,6 +1085,10 @@ class Interp:
         if op == "-":
             return a - b
         if op == "*":
+            if sym and self.linearize_uniform:
+                for u, y in ((a, b), (b, a)):
+                    if is_sym(u) and u.get_id() in self.uniform_syms and is_sym(y) and not z3.is_rational_value(y):
+                        return self.uniform_product(u, y)
             return a * b
         if op == "/":
             if not sym:
@@ -1269,7 +1301,21 @@ class Interp:
         u = self.fresh("u")
         self.assume(z3.And(u >= 0, u < 1))
         self.events.append(("uniform", u))
+        self.uniform_syms.add(u.get_id())
         return u
+
+    def uniform_product(self, u, y):
+        """u*y for a uniform draw u in [0,1) used only in this product: replaced by a fresh p whose
+        range is exactly {u*y : 0 <= u < 1} (sound and complete for properties quantified over u;
+        keeps every query linear)."""
+        if self.ctx.local:
+            raise CannotMerge()
+        y = self.toreal(y)
+        p = self.fresh("uprod")
+        self.assume(z3.And(z3.Implies(y > 0, z3.And(p >= 0, p < y)), z3.Implies(y == 0, p == 0),
+                           z3.Implies(y < 0, z3.And(p <= 0, p > y))))
+        self.events.append(("uprod", u, y, p))
+        return p
 
     def draw_poisson(self, lam, node):
         if self.ctx.local:
